@@ -28,6 +28,9 @@ func init() {
 		Assume: []string{"same machine, architecture and Go version for all replicas", "a race report counts only if the racing access itself lies in mods.irisnet.org code (the SDK store layer races under Query||Commit, which a node never runs concurrently)", "differences confined to event order are recorded as observations, not violations"},
 		Cases:  func(t string) int { return tierN(t, 5, 17) },
 		Run:    runDeterminism,
+		// the host-clock probes only mean something if operations that read the oracle exchange rate succeeded on the
+		// timestamps written in the probe phase (generator side)
+		RequireTotals: map[string]int64{"probe-phase-priced-ops-ok": 1, "priced-bind-ok": 1, "priced-call-ok": 1},
 		RaceCases: func(t string) []int {
 			if t == "thorough" {
 				return []int{16}
@@ -551,14 +554,24 @@ func determinismStraddle(run *ev.Run, c int, tmp string, D time.Duration) {
 	if !T.After(r.Time) {
 		T = r.Time.Add(time.Second)
 	}
-	const probeBlocks = 14
+	const probeBlocks = 30
 	probeStart := len(gen.Blocks)
+	pricedOK := func() int64 {
+		return run.Counters["priced-bind-ok"] + run.Counters["priced-update-ok"] + run.Counters["priced-call-ok"]
+	}
+	priced0 := pricedOK()
 	for b := 0; b < probeBlocks; b++ {
 		wb := time.Now().UnixNano()
 		br := chain.StepAt(T.Add(time.Duration(b) * time.Second))
 		gen.Blocks = append(gen.Blocks, observeBlock(r, br, wb, time.Now().UnixNano()))
 	}
 	j.Close()
+	run.Count("probe-phase-priced-ops-ok", pricedOK()-priced0)
+	if pricedOK() == priced0 {
+		// nothing that reads the oracle exchange rate succeeded on the probe timestamps: this execution pair cannot show a
+		// host-clock dependence of that path either way
+		run.Inconc("straddle D=%s: no operation priced through the oracle exchange rate succeeded during the probe phase", D)
+	}
 	lastT := T.Add(time.Duration(probeBlocks-1) * time.Second)
 	notBefore := lastT.Add(D + 4*time.Second)
 	r1, err := runReplica(nil, "--journal", jpath, "--seed", seed, "--mode", "later", "--not-before", fmt.Sprint(notBefore.UnixNano()), "--out", filepath.Join(tmp, "r1.json"))
@@ -594,7 +607,7 @@ func determinismStraddle(run *ev.Run, c int, tmp string, D time.Duration) {
 	run.Count("straddles-achieved", 1)
 	run.Class("straddle", D.String())
 	compareExec(run, j, r, gen, r1, "after-"+D.String())
-	run.Sample("straddle", map[string]any{"D": D.String(), "chain_time_of_probe": T.UTC().Format(time.RFC3339), "generator_wall": now1.UTC().Format(time.RFC3339), "replica_not_before": notBefore.UTC().Format(time.RFC3339), "priced_binds_ok": run.Counters["priced-bind-ok"], "priced_binds_rejected": run.Counters["priced-bind-rejected"]})
+	run.Sample("straddle", map[string]any{"D": D.String(), "chain_time_of_probe": T.UTC().Format(time.RFC3339), "generator_wall": now1.UTC().Format(time.RFC3339), "replica_not_before": notBefore.UTC().Format(time.RFC3339), "priced_ops_ok_in_probe_phase": pricedOK() - priced0, "priced_binds_ok": run.Counters["priced-bind-ok"], "priced_binds_rejected": run.Counters["priced-bind-rejected"]})
 }
 
 func determinismRace(run *ev.Run, c int, tmp string) {
